@@ -97,7 +97,8 @@ func createRedirectSignature(
 		return "", "", err
 	}
 
-	return url.QueryEscape(base64.StdEncoding.EncodeToString(sig)), url.QueryEscape(base64.StdEncoding.EncodeToString([]byte(signatureAlgorithm))), nil
+	// the values are escaped once when the query is built to send the response
+	return base64.StdEncoding.EncodeToString(sig), signatureAlgorithm, nil
 }
 
 func BuildRedirectQuery(
